@@ -10,6 +10,9 @@
            which is dominated by the max_alloc_size test; and a DeError is built only inside a closure that returns it
            (ok_or_else / map_err) or where every path returns Err - never eagerly on a path that can still return Ok
   LOOP     every CFG cycle on the decode path contains an input-consuming step or a bounded iterator
+  TAKE     shared from c11: a block taken out of a reader keeps the caller's allocation cap, and gives it back unchanged
+  PANIC    ... `assert!(n >= 1)` on n = NonZero::get() is a guarded idiom; a reviewed entry is lent to another function
+           only when the function it was reviewed under has no site of that kind left
 It does NOT decide stack bytes per frame, behaviour of dependencies/visitors, or total work as a number.
 """
 from ..lib import *
